@@ -340,7 +340,7 @@ Proof.
   assert (Ek : is_Constant (Node k s t ch) || is_JoinedStr (Node k s t ch) = is_literal_kind k)
     by (destruct k; reflexivity).
   rewrite Ek. cbn [node_text node_children].
-  change 10 with NL. destruct (is_literal_kind k && mem NL t); [reflexivity|].
+  change 10 with NL. clear Ek. destruct (is_literal_kind k && mem NL t); [reflexivity|].
   induction ch as [|c ch IHc]; [reflexivity|]. cbn [flat_map]. rewrite IH, IHc. reflexivity.
 Qed.
 
@@ -371,4 +371,133 @@ Proof.
   cbn [app]. erewrite fold_res_ext; [|intros st n; rewrite Eb; reflexivity].
   rewrite (fold_res_append (unindent_patch ind)). cbn [bind app]. unfold replacer_text.
   rewrite bridge_replacer_init. reflexivity.
+Qed.
+
+(* ---- the first statements of _do_make_formula_body: line ends, then _dedent ---- *)
+Lemma nl_bounds : forall t off m, In m (nl_matches off t) -> off <= m_start m /\ m_start m < m_end m <= off + len t.
+Proof.
+  induction t as [|c r IH]; intros off m H; [destruct H|]. cbn [nl_matches] in H. rewrite len_cons.
+  pose proof (len_nonneg r) as Hr.
+  assert (G : In m (nl_matches (off + 1) r) -> off <= m_start m /\ m_start m < m_end m <= off + (1 + len r)).
+  { intros Hi. apply IH in Hi. lia. }
+  destruct (c =? CR); [|exact (G H)]. destruct H as [<-|H]; [|exact (G H)].
+  unfold m_start, m_end. cbn [fst snd]. destruct r as [|d r']; [cbn; lia|].
+  rewrite len_cons in *. pose proof (len_nonneg r'). destruct (d =? NL); lia.
+Qed.
+
+Lemma chain_raise n : forall ms ip ip', chain n ip ms -> ip <= ip' ->
+  match ms with [] => ip' <= n | m :: _ => ip' <= m_start m end -> chain n ip' ms.
+Proof. destruct ms as [|m r]; intros ip ip' H H1 H2; cbn [chain] in *; [lia|]. destruct H as [Ha [Hb Hc]]. repeat split; try lia. exact Hc. Qed.
+
+Lemma nl_chain : forall t off, 0 <= off -> chain (off + len t) off (nl_matches off t).
+Proof.
+  induction t as [|c r IH]; intros off Hoff; cbn [nl_matches chain]; [unfold len; cbn; lia|].
+  rewrite len_cons. pose proof (len_nonneg r) as Hr. specialize (IH (off + 1) ltac:(lia)).
+  replace (off + (1 + len r)) with (off + 1 + len r) by lia.
+  destruct (c =? CR).
+  - assert (Hw : 1 <= match r with d :: _ => if d =? NL then 2 else 1 | [] => 1 end <= 1 + len r).
+    { destruct r as [|d r']; [unfold len; cbn; lia|]. rewrite len_cons. pose proof (len_nonneg r'). destruct (d =? NL); lia. }
+    cbn [chain]. unfold m_start, m_end. cbn [fst snd].
+    set (w := match r with d :: _ => if d =? NL then 2 else 1 | [] => 1 end) in *.
+    repeat split; try lia.
+    eapply chain_raise; [exact IH|lia|]. fold (m_start).
+    destruct (nl_matches (off + 1) r) as [|x xs] eqn:Ex; [lia|].
+    assert (Hx : In x (nl_matches (off + 1) r)) by (rewrite Ex; left; reflexivity).
+    destruct r as [|d r']; [destruct Hx|]. destruct (d =? NL) eqn:Ed; [|apply nl_bounds in Hx; lia].
+    cbn [nl_matches] in Hx. assert (Ecr : (d =? CR) = false) by (apply Z.eqb_eq in Ed; subst d; reflexivity).
+    rewrite Ecr in Hx. apply nl_bounds in Hx. lia.
+  - eapply chain_weaken; [exact IH|lia].
+Qed.
+
+Lemma nl_adj t repl : forall t' off, adj_sorted (map (mkp t repl) (nl_matches off t')).
+Proof.
+  induction t' as [|c r IH]; intros off; [exact I|]. cbn [nl_matches]. specialize (IH (off + 1)).
+  destruct (c =? CR); [|exact IH]. cbn [map adj_sorted]. split; [|exact IH].
+  destruct (nl_matches (off + 1) r) as [|x xs] eqn:Ex; cbn [map]; [exact I|].
+  assert (Hx : In x (nl_matches (off + 1) r)) by (rewrite Ex; left; reflexivity). apply nl_bounds in Hx.
+  unfold patch_leb, patch_compare, mkp, make_patch, p_start. cbn [fst snd]. unfold m_start at 1. cbn [fst].
+  replace (off ?= m_start x) with Lt by (symmetry; apply Z.compare_lt_iff; lia). reflexivity.
+Qed.
+
+Lemma nl_head_ge : forall r off ip, ip <= off ->
+  match nl_matches off r with [] => True | x :: _ => ip <= m_start x end.
+Proof.
+  intros r off ip H. destruct (nl_matches off r) as [|x xs] eqn:Ex; [exact I|].
+  assert (Hx : In x (nl_matches off r)) by (rewrite Ex; left; reflexivity). apply nl_bounds in Hx. lia.
+Qed.
+
+Lemma nl_subst : forall r P,
+  subst_from (P ++ r) (len P) (nl_matches (len P) r) [NL] = universal_newlines r.
+Proof.
+  induction r as [|c r1 IH]; intros P.
+  - cbn [nl_matches subst_from universal_newlines]. rewrite app_nil_r. apply from_all.
+  - pose proof (len_nonneg P) as HP. set (T := P ++ c :: r1).
+    assert (ET : T = (P ++ [c]) ++ r1) by (unfold T; rewrite <- app_assoc; reflexivity).
+    assert (EL : len (P ++ [c]) = len P + 1) by (rewrite len_app; reflexivity).
+    assert (Hsub : sub T (len P) (len P + 1) = [c]).
+    { unfold T. rewrite sub_app_r by lia. rewrite Z.sub_diag. replace (len P + 1 - len P) with 1 by lia. reflexivity. }
+    specialize (IH (P ++ [c])). rewrite <- ET, EL in IH.
+    cbn [nl_matches universal_newlines]. destruct (c =? CR) eqn:Ec.
+    + cbn [subst_from]. unfold m_start at 1, m_end at 1. cbn [fst snd]. rewrite sub_nil_ge by lia. cbn [app].
+      destruct r1 as [|d r2].
+      * f_equal. exact IH.
+      * destruct (d =? NL) eqn:Ed; [|f_equal; exact IH].
+        assert (Edc : (d =? CR) = false) by (apply Z.eqb_eq in Ed; subst d; reflexivity).
+        assert (Hh : match nl_matches (len P + 1) (d :: r2) with [] => True | x :: _ => len P + 2 <= m_start x end).
+        { cbn [nl_matches]. rewrite Edc. apply nl_head_ge. lia. }
+        rewrite (subst_split T [NL] _ (len P + 1) (len P + 2) ltac:(lia) Hh) in IH.
+        assert (Hs2 : sub T (len P + 1) (len P + 2) = [d]).
+        { unfold T. rewrite sub_app_r by lia. replace (len P + 1 - len P) with 1 by lia.
+          replace (len P + 2 - len P) with 2 by lia. reflexivity. }
+        rewrite Hs2 in IH. cbn [universal_newlines] in IH. rewrite Edc in IH. cbn [app] in IH.
+        injection IH as IH. cbn [universal_newlines]. rewrite Edc.
+        apply Z.eqb_eq in Ed. subst d. f_equal. f_equal. exact IH.
+    + rewrite (subst_split T [NL] _ (len P) (len P + 1)) by (lia || (apply nl_head_ge; lia)).
+      rewrite Hsub. cbn [app]. f_equal. exact IH.
+Qed.
+
+Lemma nl_none : forall t off, nl_matches off t = [] -> universal_newlines t = t.
+Proof.
+  induction t as [|c r IH]; intros off H; [reflexivity|]. cbn [nl_matches] in H. cbn [universal_newlines].
+  destruct (c =? CR); [discriminate|]. f_equal. eapply IH; eauto.
+Qed.
+
+Theorem bridge_formula_text f : gen_formula_text f = Ok (formula_text f).
+Proof.
+  unfold gen_formula_text, formula_text. rewrite bridge_make_regexp_patches. unfold gen_universal_newline_re.
+  cbn [re_finditer]. change [10] with [NL].
+  destruct (nonempty (map (mkp f [NL]) (nl_matches 0 f))) eqn:En.
+  - unfold replacer_text. rewrite bridge_replacer_init.
+    rewrite replacer_init_ok; rewrite sort_id by apply nl_adj.
+    + cbn [bind snd]. rewrite splice_subst. pose proof (nl_subst f []) as Hs. cbn [app] in Hs.
+      replace (len []) with 0 in Hs by reflexivity. rewrite Hs. rewrite bridge_dedent. reflexivity.
+    + apply chain_wf. pose proof (nl_chain f 0 ltac:(lia)) as Hc. rewrite Z.add_0_l in Hc. exact Hc.
+  - cbn [bind]. rewrite bridge_dedent. cbn [bind].
+    destruct (nl_matches 0 f) as [|m ms] eqn:E; [|discriminate En]. rewrite (nl_none f 0 E). reflexivity.
+Qed.
+
+(* ---- _do_make_formula_body: the loop over ast.walk(tree) ---- *)
+Theorem bridge_walk formula io oo nodes : gen_walk io oo nodes formula = Ok (walk_model formula io oo nodes).
+Proof.
+  unfold gen_walk, walk_model.
+  match goal with |- context [fold_res ?B nodes _] => set (body := B) end.
+  assert (Hstep : forall h ps n,
+            body (h, ps) n = Ok (h || is_ml_literal n, ps ++ dollar_patches formula io oo n)).
+  { intros h ps n. unfold body. cbv beta iota zeta. unfold is_ml_literal, dollar_patches.
+    assert (Ek : is_Constant n || is_JoinedStr n = is_literal_kind (node_kind n)).
+    { unfold is_Constant, is_JoinedStr. destruct (node_kind n); reflexivity. }
+    rewrite Ek. change 10 with NL. change [68; 79; 76; 76; 65; 82] with Dollar.s_DOLLAR.
+    change [114; 101; 99; 46] with Dollar.s_rec.
+    destruct (is_literal_kind (node_kind n) && mem NL (node_text n));
+      [rewrite orb_true_r|rewrite orb_false_r]; cbn [bind];
+      (destruct (is_Name n && starts_with Dollar.s_DOLLAR (name_id n)); cbn [bind]; [|rewrite app_nil_r; reflexivity];
+       unfold gen_map_back_offset; rewrite bridge_get_input_pos; cbn [fst bind]; unfold gen_DOLLAR_REGEX, re_match_at;
+       destruct (Dollar.dollar_match_at formula (get_input_pos io oo (node_start n))); cbn [bind];
+       [rewrite bridge_make_patch; reflexivity|rewrite app_nil_r; reflexivity]). }
+  assert (G : forall ns h ps, fold_res body ns (h, ps)
+              = Ok (h || existsb is_ml_literal ns, ps ++ flat_map (dollar_patches formula io oo) ns)).
+  { induction ns as [|n ns IH]; intros h ps; cbn [fold_res existsb flat_map].
+    - rewrite orb_false_r, app_nil_r. reflexivity.
+    - rewrite Hstep. cbn [bind]. rewrite IH. rewrite orb_assoc, app_assoc. reflexivity. }
+  rewrite G. reflexivity.
 Qed.
